@@ -36,6 +36,7 @@ func runC01(c *Ctx) []Obligation {
 		c.mapWriters(P, "pending.created-only-by-setCacheValue", pkg, `^store\.cache$`, []string{S + "setCacheValue"}, "the pending-entry map is filled through one function"),
 		c.mapWriters(P, "unsorted.touched-only-by-set-and-merge", pkg, `^store\.unsortedCache$`, []string{S + "setCacheValue", S + "dirtyItems"}, "keys awaiting the sorted merge are added on a dirty write and removed when merged"),
 		c.fieldTable(P, "parent.set-once", pkg, "Store", "parent", false, []string{`store/cachekv\.NewStore`}, "a cache store never changes its parent"),
+		c.sharedImmutable(P, "dirty-items.replaced-not-updated", pkg, "github.com/tendermint/tendermint/libs/kv", "Pair", "an open iterator keeps pointers to the dirty items it was built from; a later write must not show through it"),
 	)
 	key := `phi:keys\[\(phi:rangeindex \+ 1\)\]`
 	ent := `store\.cache\[` + key + `\]`
